@@ -94,11 +94,12 @@ type EntRec struct {
 }
 
 type State struct {
-	Alive  []ecs.Entity `json:"alive"`
-	Dead   []ecs.Entity `json:"dead"`
-	Ents   []EntRec     `json:"ents"`
-	Locked bool         `json:"locked"`
-	Used   int          `json:"used"`
+	Alive  []ecs.Entity     `json:"alive"`
+	Dead   []ecs.Entity     `json:"dead"`
+	Ents   []EntRec         `json:"ents"`
+	Locked bool             `json:"locked"`
+	Used   int              `json:"used"`
+	Res    map[string]int64 `json:"res"` // resources present: type -> value
 }
 
 type BVal struct {
@@ -466,6 +467,7 @@ type Config struct {
 	MaxEnt    int      `json:"maxent"`    // driver: soft bound on the number of alive entities
 	Observers int      `json:"observers"` // driver: max simultaneously registered observers (0 = none)
 	ResetP    int      `json:"resetp"`    // driver: per-mille probability of World.Reset / DumpLoad per step
+	ResP      int      `json:"resp"`      // driver: per-mille probability of a resource operation per step
 	TypedObs  bool     `json:"typedobs"`  // register observers through Observer1..4 where the observed set allows
 	Arity     bool     `json:"arity"`     // driver: draw component sets from the instantiated tuples of all arities
 	Grid      int      `json:"grid"`      // percent of driver operations drawn coverage-guided (grid.go)
@@ -528,6 +530,7 @@ type Exec struct {
 	obsSpec    map[int]GenObs
 	oldFilters map[int]*regFilter
 	custom     map[string]ecs.EventType
+	res        map[string]resHandle
 	seq        int
 	Events     int
 	Panics     int
@@ -618,6 +621,7 @@ func (x *Exec) newWorld() {
 	x.hist = x.hist[:0]
 	reg := ecs.EventRegistry{}
 	x.custom = map[string]ecs.EventType{"Custom0": reg.NewEventType(), "Custom1": reg.NewEventType()}
+	x.initResources()
 }
 
 var builtinEvents = map[string]ecs.EventType{
@@ -1096,7 +1100,7 @@ func (x *Exec) entRec(e ecs.Entity) EntRec {
 }
 
 func (x *Exec) project() (st State) {
-	st = State{Alive: []ecs.Entity{}, Dead: []ecs.Entity{}, Ents: []EntRec{}}
+	st = State{Alive: []ecs.Entity{}, Dead: []ecs.Entity{}, Ents: []EntRec{}, Res: map[string]int64{}}
 	defer func() {
 		if r := recover(); r != nil {
 			// a projection that panics is reported as an impossible state
@@ -1113,6 +1117,7 @@ func (x *Exec) project() (st State) {
 	}
 	st.Locked = x.w.IsLocked()
 	st.Used = x.w.Stats().Entities.Used
+	st.Res = x.resState()
 	return st
 }
 
@@ -1757,6 +1762,8 @@ func (x *Exec) dispatch(op GenOp, e ecs.Entity, tg map[string]ecs.Entity, lo *Lo
 		}
 	case "Reset":
 		w.Reset()
+	case "ResAdd", "ResRemove", "ResSet":
+		x.resOp(op)
 	case "Load":
 		// the world continues as the one its own entity dump is loaded into (through JSON): a fresh world with the
 		// same registrations (mode fresh), or this world after Reset (mode reset)
@@ -1785,6 +1792,9 @@ func (x *Exec) dispatch(op GenOp, e ecs.Entity, tg map[string]ecs.Entity, lo *Lo
 		}
 		w2.Unsafe().LoadEntities(&d)
 		x.w = w2
+		for _, n := range resNames {
+			x.res[n].rebind(w2)
+		}
 	default:
 		panic(harnessBug{"unknown op " + op.Op})
 	}
